@@ -20,173 +20,303 @@ from ..nf import Rat, Alg
 from ..series import SeriesAlg, Ser
 
 
-def _find_branch(ctx, f):
+INF = float('inf')
+
+
+def _threshold_test(ctx, f, st):
+    """`var OP constant` (possibly negated / mirrored) -> (var, threshold, op class) or None"""
     from ..flow import strip_not
-    for st in f.node.body:
-        if not isinstance(st, ast.If):
-            continue
-        test, pol = strip_not(st.test)
-        if isinstance(test, ast.Compare) and len(test.ops) == 1 and \
-                isinstance(test.left, ast.Name):
-            try:
-                thr = ctx.repo.fold(test.comparators[0], f.module)
-            except ValueError:
-                continue
-            if not isinstance(thr, (int, float)):
-                continue
-            op = test.ops[0]
-            body, orelse = (st.body, st.orelse) if pol else (st.orelse, st.body)
-            st.test_cmp = test
-            if isinstance(op, (ast.Gt, ast.GtE)):
-                return st, test.left.id, float(thr), body, orelse
-            if isinstance(op, (ast.Lt, ast.LtE)):
-                return st, test.left.id, float(thr), orelse, body
-    raise AnalysisError('small-angle branch of mat_from_rotvec not found')
-
-
-def _var_power(f, var, before):
-    """Is `var` the squared norm (2) or the norm (1)?  From its defining assignment."""
-    for st in f.node.body:
-        if st is before:
-            break
-        if isinstance(st, ast.Assign) and len(st.targets) == 1 and \
-                isinstance(st.targets[0], ast.Name) and st.targets[0].id == var:
-            txt = norm_text(st.value)
-            if '** 0.5' in txt or 'sqrt' in txt or 'linalg.norm' in txt:
-                return 1
-            return 2
-    raise AnalysisError('definition of %s not found' % var)
-
-
-def _arm_series(ctx, f, arm, var, power):
-    sa = SeriesAlg(var)
-    ev = SymEval(ctx.repo, sa)
-    ev.cur = f
-    ev.depth = 1
-    env = {var: Ser({power: Fraction(1)})}
+    test, pol = strip_not(st.test)
+    if not (isinstance(test, ast.Compare) and len(test.ops) == 1):
+        return None
+    l, r, op = test.left, test.comparators[0], type(test.ops[0])
+    mirror = {ast.Gt: ast.Lt, ast.GtE: ast.LtE, ast.Lt: ast.Gt, ast.LtE: ast.GtE,
+              ast.Eq: ast.Eq, ast.NotEq: ast.NotEq}
+    if not isinstance(l, ast.Name):
+        l, r = r, l
+        op = mirror.get(op)
+    if not isinstance(l, ast.Name) or op not in mirror:
+        return None
     try:
-        ev.exec_block(arm, env)
-    except (Unsupported, ValueError, ZeroDivisionError) as e:
-        raise AnalysisError('arm of mat_from_rotvec has no power series: %s' % e)
-    return {k: v for k, v in env.items() if isinstance(v, Ser)}, sa
+        thr = ctx.repo.fold(r, f.module)
+    except ValueError:
+        return None
+    if not isinstance(thr, (int, float)) or isinstance(thr, bool):
+        return None
+    if not pol:
+        op = {ast.Gt: ast.LtE, ast.GtE: ast.Lt, ast.Lt: ast.GtE, ast.LtE: ast.Gt,
+              ast.Eq: ast.NotEq, ast.NotEq: ast.Eq}[op]
+    return l.id, float(thr), op, test
+
+
+def _split(iv, thr, op):
+    """(interval where the test holds, interval where it fails); an interval is
+    (lo, lo_closed, hi, hi_closed) in units of the tested variable, None when empty"""
+    lo, lc, hi, hc = iv
+
+    def clip(a, ac, b, bc):
+        a2, ac2 = (a, ac) if (a, not ac) >= (lo, not lc) else (lo, lc)
+        b2, bc2 = (b, bc) if (b, bc) <= (hi, hc) else (hi, hc)
+        if a2 > b2 or (a2 == b2 and not (ac2 and bc2)):
+            return None
+        return (a2, ac2, b2, bc2)
+    if op is ast.Gt:
+        return clip(thr, False, INF, False), clip(-INF, False, thr, True)
+    if op is ast.GtE:
+        return clip(thr, True, INF, False), clip(-INF, False, thr, False)
+    if op is ast.Lt:
+        return clip(-INF, False, thr, False), clip(thr, True, INF, False)
+    if op is ast.LtE:
+        return clip(-INF, False, thr, True), clip(thr, False, INF, False)
+    # == / != : only at the closed lower end of the interval (x == 0 for a non-negative x)
+    if thr == lo and lc:
+        point, rest = (lo, True, lo, True), ((lo, False, hi, hc) if hi > lo else None)
+        return (point, rest) if op is ast.Eq else (rest, point)
+    raise AnalysisError('equality test of the norm away from the end of its range')
+
+
+def _paths(ctx, f):
+    """The decision list of mat_from_rotvec: every path through the threshold tests on the
+    (squared) norm, as (interval of the tested variable, flattened statements, test nodes)."""
+    out, var = [], [None]
+
+    def walk(stmts, iv, acc, tests):
+        for i, st in enumerate(stmts):
+            if isinstance(st, ast.If):
+                t = _threshold_test(ctx, f, st)
+                if t is None:
+                    raise AnalysisError('mat_from_rotvec branches on something other than a '
+                                        'constant threshold of one local: `%s`'
+                                        % norm_text(st.test))
+                name, thr, op, node = t
+                if var[0] not in (None, name):
+                    raise AnalysisError('mat_from_rotvec tests two different locals (%s, %s) '
+                                        'against thresholds' % (var[0], name))
+                var[0] = name
+                yes, no = _split(iv, thr, op)
+                rest = stmts[i + 1:]
+                if yes is not None:
+                    walk(st.body + rest, yes, list(acc), tests + [node])
+                if no is not None:
+                    walk(st.orelse + rest, no, list(acc), tests + [node])
+                return
+            if isinstance(st, ast.Return):
+                if st.value is not None and not (isinstance(st.value, ast.Constant) and
+                                                 st.value.value is None):
+                    raise AnalysisError('mat_from_rotvec returns a value')
+                break
+            if isinstance(st, (ast.For, ast.While, ast.Try, ast.With)):
+                raise AnalysisError('mat_from_rotvec contains a %s statement'
+                                    % type(st).__name__)
+            acc.append(st)
+        out.append((iv, acc, tests))
+    walk(f.node.body, (0.0, True, INF, False), [], [])
+    if var[0] is None:
+        raise AnalysisError('small-angle branch of mat_from_rotvec not found')
+    return var[0], out
+
+
+def _iv_text(iv, power):
+    lo, lc, hi, hc = iv
+    r = (lambda x: x if power == 1 else x ** 0.5)
+    if lo == hi:
+        return '|rv| = %.3g' % r(lo)
+    return '|rv| in %s%.3g, %s%s' % ('[' if lc else '(', r(lo),
+                                     'inf' if hi == INF else '%.3g' % r(hi),
+                                     ']' if hc else ')')
+
+
+def _analyse_rotvec(ctx):
+    """Per path: the three Rodrigues coefficients as series in n = |rv| and the entry checks."""
+    if 'rotvec' in ctx.cache:
+        return ctx.cache['rotvec']
+    f = ctx.repo.function('_numba_integrate.mat_from_rotvec')
+    ctx.touch(f)
+    ctx.need(len(f.params) == 2, 'mat_from_rotvec(rv, mat) signature changed')
+    var, paths = _paths(ctx, f)
+    sk = ctx.repo.function('util.skew_matrix')
+    ctx.touch(sk)
+    res = dict(f=f, var=var, paths=[], power=None, normdef=None)
+    for iv, stmts, tests in paths:
+        ev = SymEval(ctx.repo, names_as_atoms=True)
+        A = ev.A
+        rv = SArray((3,), {(i,): A.sym('rv%d' % i) for i in range(3)})
+        mat = SArray((3, 3), {})
+        ev.cur, ev.depth = f, 1
+        env = {f.params[0]: rv, f.params[1]: mat}
+        try:
+            ev.exec_block(stmts, env)
+        except Unsupported as e:
+            raise AnalysisError('mat_from_rotvec not analysable on the path %s: %s'
+                                % (_iv_text(iv, 1), e))
+        ctx.need(var in ev.defs and ev.versions.get(var) == 1,
+                 "the tested local '%s' of mat_from_rotvec is not assigned exactly once" % var)
+        # what the tested variable is: sum of squares (power 2) or its root (power 1)
+        n2 = A.add(A.add(A.mul(rv.get((0,)), rv.get((0,))), A.mul(rv.get((1,)), rv.get((1,)))),
+                   A.mul(rv.get((2,)), rv.get((2,))))
+        vdef = ev.expand(A.sym(var))
+        if A.eq(vdef, n2):
+            power, normdef = 2, True
+        elif A.eq(A.mul(vdef, vdef), n2):
+            power, normdef = 1, True
+        else:
+            power, normdef = 2, False
+        res['power'], res['normdef'] = power, normdef
+        res['vdef_node'] = ev.def_node.get(var)
+        missing = [(a, b) for a in range(3) for b in range(3) if (a, b) not in mat.entries]
+        P = dict(iv=iv, tests=tests, missing=missing, label=_iv_text(iv, power), entries={},
+                 roles=None, series=None, divzero=False, err=None)
+        res['paths'].append(P)
+        if missing:
+            continue
+        E = {k: ev.expand(v, stop=(var,)) for k, v in mat.entries.items()}
+        S = SymEval(ctx.repo, A).call_function(sk, [rv])
+        try:
+            d00 = A.degree_split(E[(0, 0)], 'rv0')
+            K2, Cc = d00.get(2, A.const(0)), d00.get(0, A.const(0))
+            anti = A.mul(A.sub(E[(1, 0)], E[(0, 1)]), A.const(Fraction(1, 2)))
+            K1 = A.mul(A.coeff(anti, 'rv2'), A.coeff(S.get((1, 0)), 'rv2'))   # S entry is +-rv2
+        except ValueError as e:
+            raise AnalysisError('matrix entries not polynomial in rv: %s' % e)
+        roles = {'cos': Cc, 'k1': K1, 'k2': K2}
+        for r_, v in roles.items():
+            ctx.need(not (A.atoms_of(v) & {'rv0', 'rv1', 'rv2'}),
+                     'coefficient playing the role %s on the path %s still depends on the '
+                     'components of rv' % (r_, P['label']))
+        P['roles'] = roles
+        for a in range(3):
+            for b in range(3):
+                e = A.add(A.mul(K1, S.get((a, b))),
+                          A.mul(K2, A.mul(rv.get((a,)), rv.get((b,)))))
+                if a == b:
+                    e = A.add(e, Cc)
+                P['entries'][(a, b)] = A.eq(E[(a, b)], e)
+        sa = SeriesAlg(var)
+        sa.laurent = True
+        n = Ser({power: Fraction(1)})
+        zero_div = []
+
+        def on_div(d, zero_div=zero_div):
+            if not d.c.get(0):
+                zero_div.append(d)
+        try:
+            P['series'] = {r_: A.transfer(v, sa, {var: n}, on_div) for r_, v in roles.items()}
+        except (ValueError, ZeroDivisionError) as e:
+            raise AnalysisError('coefficient of mat_from_rotvec on the path %s has no power '
+                                'series in |rv|: %s' % (P['label'], e))
+        P['divzero'] = bool(zero_div)
+        for r_, sr in P['series'].items():
+            if any(k < 0 for k in sr.c):
+                P['err'] = "coefficient %s has a pole at rv = 0" % r_
+    ctx.cache['rotvec'] = res
+    return res
+
+
+_EXACT = None
+_WEIGHT = {'cos': 0, 'k1': 1, 'k2': 2}
+_DESC = {'cos': 'cos n', 'k1': 'sin n / n', 'k2': '(1 - cos n) / n^2'}
+UPTO = 12
+
+
+def _exact():
+    global _EXACT
+    if _EXACT is None:
+        sa = SeriesAlg('n2')
+        n = Ser({1: Fraction(1)})
+        _EXACT = {'cos': sa.cos(n), 'k1': sa.div(sa.sin(n), n),
+                  'k2': sa.div(sa.sub(sa.const(1), sa.cos(n)), Ser({2: Fraction(1)}))}
+    return _EXACT
 
 
 def rot_series(ctx):
-    ctx.rule('ROT-SERIES', 'series arm = Maclaurin truncation of the closed-form arm; first '
-             'omitted term at the branch threshold < 2^-53 relative')
-    f = ctx.repo.function('_numba_integrate.mat_from_rotvec')
-    st, var, thr, large, small = _find_branch(ctx, f)
-    power = _var_power(f, var, st)
-    cl, sa = _arm_series(ctx, f, large, var, power)
-    ta, _ = _arm_series(ctx, f, small, var, power)
-    thr_n = thr if power == 1 else thr ** 0.5
-    common = [k for k in ta if k in cl and k != var]
-    # only names that are used after the branch matter
-    used_after = set()
-    seen = False
-    for s2 in f.node.body:
-        if s2 is st:
-            seen = True
+    ctx.rule('ROT-SERIES', 'on every bounded arm of the norm test each coefficient deviates from '
+             'cos n, sin n / n, (1 - cos n) / n^2 by less than 2^-53 relative at the arm\'s upper '
+             'threshold (first omitted terms of the series); no arm that contains rv = 0 divides '
+             'by the norm')
+    R = _analyse_rotvec(ctx)
+    f, power = R['f'], R['power']
+    bounded = [P for P in R['paths'] if P['iv'][2] != INF]
+    ctx.floor('ROT-SERIES', len(bounded), 1, 'small-angle arms')
+    want = _exact()
+    for P in R['paths']:
+        if P['roles'] is None:
             continue
-        if seen:
-            for n in ast.walk(s2):
-                if isinstance(n, ast.Name) and isinstance(n.ctx, ast.Load):
-                    used_after.add(n.id)
-    common = [k for k in common if k in used_after]
-    ctx.floor('ROT-SERIES', len(common), 3, 'coefficients assigned in both arms')
-    ctx.cache['rot-closed'] = cl
-    ctx.cache['rot-alg'] = sa
-    for name in sorted(common):
-        c, t = cl[name], ta[name]
-        D = max(t.c) if t.c else 0
-        agree = all(c.c.get(k, 0) == t.c.get(k, 0) for k in range(0, D + 1))
-        rest = [k for k in sorted(c.c) if k > D]
-        if rest:
-            k = rest[0]
-            lead = abs(c.c.get(min(c.c), 1))
-            bound = abs(float(c.c[k])) * thr_n ** k / float(lead)
-        else:
-            bound = 0.0
-        node = [s3 for s3 in small if isinstance(s3, ast.Assign) and
-                any(isinstance(x, ast.Name) and x.id == name for x in s3.targets)]
-        ctx.ob('ROT-SERIES', agree, None,
-               "series arm of '%s' matches the closed form through n^%d" % (name, D), f=f,
-               node=node[-1] if node else st, key='series-' + name,
-               why="small-angle polynomial for '%s' is not the Maclaurin expansion of the "
-                   "closed-form expression" % name)
-        ctx.ob('ROT-SERIES', bound < 2.0 ** -53, None,
-               "first omitted term of '%s' at the threshold (|rv| = %.3g): %.3g < 2^-53"
-               % (name, thr_n, bound), f=f, node=getattr(st, 'test_cmp', st.test), key='remainder-' + name,
-               why="branch threshold too large for the truncation: first omitted term of "
-                   "'%s' is %.3g relative (> 2^-53), the routine is discontinuous across "
-                   "the branch" % (name, bound))
+        lo, lc, hi, hc = P['iv']
+        node = P['tests'][-1] if P['tests'] else f.node
+        if lo == 0.0 and lc:
+            ctx.ob('ROT-SERIES', not P['divzero'] and not P['err'], None,
+                   'arm %s does not divide by the norm' % P['label'], f=f, node=node,
+                   key='zero-' + P['label'],
+                   why='the arm taken for %s contains rv = 0 and divides by a quantity that '
+                       'vanishes there%s: the zero rotation gives NaN'
+                       % (P['label'], (' (' + P['err'] + ')') if P['err'] else ''))
+        if hi == INF:
+            continue
+        thr_n = hi if power == 1 else hi ** 0.5
+        for r_ in ('cos', 'k1', 'k2'):
+            got, ex = P['series'][r_], want[r_]
+            # relative accuracy of each coefficient function (an entry such as -k1*rv[2] for
+            # rv along z has exactly the relative error of its coefficient); on the point arm
+            # rv = 0 the coefficient only matters through the power of rv it multiplies
+            w = _WEIGHT[r_] if thr_n == 0.0 else 0
+            ks = [k for k in range(0, UPTO + 1) if got.c.get(k, 0) != ex.c.get(k, 0)]
+            bound = sum(abs(float(got.c.get(k, 0) - ex.c.get(k, 0))) * thr_n ** (k + w)
+                        for k in ks) / abs(float(ex.c[0]))
+            first = ks[0] if ks else None
+            ctx.ob('ROT-SERIES', bound < 2.0 ** -53, None,
+                   "arm %s: coefficient %s agrees with %s up to %.3g at the threshold "
+                   "(first differing term n^%s) < 2^-53" % (P['label'], r_, _DESC[r_], bound,
+                                                             first), f=f, node=node,
+                   key='remainder-%s-%s' % (r_, P['label']),
+                   why="on the arm taken for %s the coefficient playing the role %s differs "
+                       "from %s first at n^%s; at the arm's upper threshold (|rv| = %.3g) its "
+                       "relative deviation is %.3g (> 2^-53): the routine is not the "
+                       "exponential map there (wrong series coefficient, threshold too large "
+                       "for the truncation, or a shortcut that drops the rotation)"
+                       % (P['label'], r_, _DESC[r_], first, thr_n, bound))
 
 
 def rot_exp(ctx):
     ctx.rule('ROT-EXP', 'mat = cos*I + (sin n/n)*skew(rv) + ((1-cos n)/n^2)*rv rv^T with the '
-             'sign pattern of util.skew_matrix')
-    f = ctx.repo.function('_numba_integrate.mat_from_rotvec')
-    if 'rot-closed' not in ctx.cache:
-        rot_series(ctx)
-    cl, sa = ctx.cache['rot-closed'], ctx.cache['rot-alg']
-    ev = SymEval(ctx.repo, names_as_atoms=True)
-    A = ev.A
-    rv = SArray((3,), {(i,): A.sym('rv%d' % i) for i in range(3)})
-    mat = SArray((3, 3), {})
-    try:
-        ev.call_function(f, [rv, mat])
-    except Unsupported as e:
-        raise AnalysisError('mat_from_rotvec not analysable: %s' % e)
-    ctx.need(len(mat.entries) == 9, 'mat_from_rotvec writes %d of 9 entries' % len(mat.entries))
-    sk = ctx.repo.function('util.skew_matrix')
-    S = SymEval(ctx.repo, A).call_function(sk, [rv])
-    ctx.touch(sk)
-    # roles from structure
-    try:
-        d00 = A.degree_split(mat.get((0, 0)), 'rv0')
-        K2, Cc = d00.get(2, A.const(0)), d00.get(0, A.const(0))
-        k1s = A.coeff(mat.get((1, 0)), 'rv2')
-        K1 = A.mul(k1s, A.coeff(S.get((1, 0)), 'rv2'))   # S entry is +-rv2: sign^2 = 1
-    except ValueError as e:
-        raise AnalysisError('matrix entries not polynomial in rv: %s' % e)
-
-    def phi_name(v):
-        at = A.atoms_of(v)
-        if len(v.n.t) == 1 and len(at) == 1:
-            a = next(iter(at))
-            (m, c), = v.n.t.items()
-            if c == 1 and a.startswith('phi(') and '@' in a:
-                return a[4:a.index('@')]
-        return None
-    roles = {'cos': Cc, 'k1': K1, 'k2': K2}
-    want = {'cos': sa.cos(Ser({1: Fraction(1)})),
-            'k1': sa.div(sa.sin(Ser({1: Fraction(1)})), Ser({1: Fraction(1)})),
-            'k2': sa.div(sa.sub(sa.const(1), sa.cos(Ser({1: Fraction(1)}))),
-                         Ser({2: Fraction(1)}))}
-    desc = {'cos': 'cos n', 'k1': 'sin n / n', 'k2': '(1 - cos n) / n^2'}
-    for r_, v in roles.items():
-        nm = phi_name(v)
-        ctx.need(nm is not None and nm in cl,
-                 'coefficient playing the role %s is not a branch-assigned local' % r_)
-        got = cl[nm]
-        upto = 14
-        ok = all(got.c.get(k, 0) == want[r_].c.get(k, 0) for k in range(upto + 1))
-        ctx.ob('ROT-EXP', ok, None,
-               "closed-form '%s' (role %s) has the Maclaurin series of %s" % (nm, r_, desc[r_]),
-               f=f, key='closed-' + r_,
-               why="closed-form coefficient '%s' is not %s: the routine is not the "
-                   "exponential map" % (nm, desc[r_]))
-    for a in range(3):
-        for b in range(3):
-            e = A.add(A.mul(K1, S.get((a, b))), A.mul(K2, A.mul(rv.get((a,)), rv.get((b,)))))
-            if a == b:
-                e = A.add(e, Cc)
-            ok = A.eq(mat.get((a, b)), e)
+             'sign pattern of util.skew_matrix on every path; the tested local is the (squared) '
+             'norm of rv; the unbounded arm has the exact coefficients')
+    R = _analyse_rotvec(ctx)
+    f = R['f']
+    ctx.ob('ROT-EXP', R['normdef'], None,
+           "'%s' is the %snorm of rv" % (R['var'], 'squared ' if R['power'] == 2 else ''), f=f,
+           node=R.get('vdef_node') or f.node, key='norm-def',
+           why="the local '%s' that selects the arm and enters the coefficients is neither the "
+               "sum of squares of rv nor its root" % R['var'])
+    want = _exact()
+    for P in R['paths']:
+        node = P['tests'][-1] if P['tests'] else f.node
+        ctx.ob('ROT-EXP', not P['missing'], None,
+               'path %s writes all 9 entries' % P['label'], f=f, node=node,
+               key='writes-' + P['label'],
+               why='on the path taken for %s the entries %s of the output matrix are not '
+                   'written (the caller passes an uninitialised/previous buffer)'
+                   % (P['label'], ', '.join('[%d,%d]' % m for m in P['missing'])))
+        if P['roles'] is None:
+            continue
+        for (a, b), ok in sorted(P['entries'].items()):
             ctx.ob('ROT-EXP', ok, None,
-                   'mat[%d,%d] = cos*delta + k1*skew(rv)[%d,%d] + k2*rv[%d]*rv[%d]'
-                   % (a, b, a, b, a, b), f=f, key='entry-%d-%d' % (a, b),
+                   'path %s: mat[%d,%d] = cos*delta + k1*skew(rv)[%d,%d] + k2*rv[%d]*rv[%d]'
+                   % (P['label'], a, b, a, b, a, b), f=f, key='entry-%d-%d-%s' % (a, b, P['label']),
                    why='entry [%d,%d] of the rotation matrix deviates from the Rodrigues '
-                       'formula with the sign pattern of util.skew_matrix' % (a, b))
+                       'formula with the sign pattern of util.skew_matrix (path %s)'
+                       % (a, b, P['label']))
+        if P['iv'][2] != INF:
+            continue
+        for r_ in ('cos', 'k1', 'k2'):
+            got = P['series'][r_]
+            ok = all(got.c.get(k, 0) == want[r_].c.get(k, 0) for k in range(UPTO + 1)) and \
+                not any(k < 0 for k in got.c)
+            ctx.ob('ROT-EXP', ok, None,
+                   "closed-form coefficient in the role %s has the Maclaurin series of %s"
+                   % (r_, _DESC[r_]), f=f, node=node, key='closed-' + r_,
+                   why="on the arm without an upper bound (%s) the coefficient in the role %s "
+                       "is not %s: the routine is not the exponential map"
+                       % (P['label'], r_, _DESC[r_]))
 
 
 def euler_conv(ctx):
